@@ -31,17 +31,77 @@ FINDINGS = {
                                          "still carries DeletedAt and the acknowledged increment is written as a delete (gone after reload)",
     "C09-lost-update-guard-id-reuse": "guard IDs restart when the queue empties and immediate-write mode releases twice: a stale release "
                                       "frees a later holder and two increments read the same value",
-    "C09-read-outside-guard": "a body reads the record before StartTreasureGuard",
+    "C09-read-outside-guard": "a body reads the record before StartTreasureGuard (gateway Set: the existence tests behind "
+                              "Overwrite=false / CreateIfNotExist=false are made before the treasure is guarded, so two conditional "
+                              "Sets both write, or a Set without CreateIfNotExist re-creates a key deleted meanwhile)",
     "C09-write-outside-guard": "a body writes / saves the record after ReleaseTreasureGuard",
 }
 
 INC = {"A": 1, "B": 10, "C": 100, "D": 1000}
 
 
+def setx_violated(ops, impl):
+    """mode setx: brute-force linearizability of the conditional Sets / deletes / reads on one key.
+    A synchronous op occupies one instant, a spawned op the interval [spawn, go]."""
+    import itertools
+    calls, open_ = [], {}
+    for i, (op, line) in enumerate(zip(ops, impl)):
+        f, r = op.split(), line.split()
+        if "stuck" in line or "hang" in line:
+            return "request hangs at `%s`" % op
+        if f[0] in ("seta", "setx") and len(r) == 2:
+            calls.append((f[0], int(f[1]), r[1], i, i))
+        elif f[0] == "del" and len(r) == 2:
+            calls.append(("del", 0, r[1], i, i))
+        elif f[0] == "get" and len(r) == 2:
+            calls.append(("get", 0, r[1][2:], i, i))
+        elif f[0] == "spawn":
+            if " done " in line:
+                calls.append((f[2], int(f[3]), r[2], i, i))
+            else:
+                open_[f[1]] = (f[2], int(f[3]), i)
+        elif f[0] == "go" and f[1] in open_ and " done " in line:
+            k, a, i0 = open_.pop(f[1])
+            calls.append((k, a, r[2], i0, i))
+
+    def apply(c, v):
+        k, a, resp = c[0], c[1], c[2]
+        if k == "seta":
+            return (resp == "WROTE", a) if v is None else (resp == "UNCHANGED", v)
+        if k == "setx":
+            return (resp == "NOT_FOUND", v) if v is None else (resp == "WROTE", a)
+        if k == "del":
+            return (resp == "NOT_FOUND", None) if v is None else (resp == "DELETED", None)
+        return (resp == ("absent" if v is None else str(v)), v)
+
+    if len(calls) > 8:
+        return None
+    for perm in itertools.permutations(range(len(calls))):
+        ok = True
+        for x in range(len(perm)):
+            for y in range(x + 1, len(perm)):
+                if calls[perm[y]][4] < calls[perm[x]][3]:
+                    ok = False
+        if not ok:
+            continue
+        v = None
+        for idx in perm:
+            good, v = apply(calls[idx], v)
+            if not good:
+                ok = False
+                break
+        if ok:
+            return None
+    return "no serial order of %s explains the responses (conditional Set decided outside the record guard)" % \
+        ["%s(%s)->%s" % (c[0], c[1], c[2]) for c in calls]
+
+
 def spec_violated(rep):
     ops, impl = rep["ops"], rep["impl"]
     head = ops[0].split() if ops else []
     mode = head[2] if len(head) > 2 else ""
+    if mode == "setx":
+        return setx_violated(ops[1:], impl[1:])
     written, deleted = set(), False
     for op, line in zip(ops[1:], impl[1:]):
         f = op.split()
@@ -84,7 +144,7 @@ def run(ctx):
     K.lean_verdict(ctx)
     corrs = []
     if K.build_hx(ctx) and K.build_drv(ctx):
-        args = ["%s=%s" % (k, facts.get(k, "unknown")) for k in ("resetsIdOnEmpty", "releasesGuardWhenImmediate", "rechecksObjectUnderGuard")]
+        args = ["%s=%s" % (k, facts.get(k, "unknown")) for k in ("resetsIdOnEmpty", "releasesGuardWhenImmediate", "rechecksObjectUnderGuard", "setTestsExistenceUnderGuard")]
         c = K.correspondence(ctx, "C09", args, timeout=900)
         corrs.append(("C09", args, c))
     else:
@@ -113,7 +173,11 @@ def run(ctx):
               "record value) in three configurations (persistent write interval 0 / 3600 s, in-memory), preceded by the ID-reuse witness "
               "schedule in every configuration, a double-release-with-waiters schedule and the delete/increment object race; stress = W "
               "goroutines x N increments over K keys (responses per key must be 1..n, final = n); mixed = 3 clients x 4 random "
-              "set/inc/get on one key with a Wing-Gong linearizability search over the client-visible history.  Non-trivial = >= 3 ops."),
+              "set / conditional set (Overwrite=false, CreateIfNotExist=false) / delete / inc / get on one key with a Wing-Gong "
+              "linearizability search over the client-visible history; setx = forced schedules of conditional Sets parked at hook "
+              "gw.set.tested (after the gateway's unguarded existence tests) around synchronous conditional Sets, deletes and reads, "
+              "model = Hv.Lin calls with set-if-absent / set-if-present / delete bodies, oracle = brute-force linearizability.  "
+              "Non-trivial = >= 3 ops."),
         samples=samples,
         evaluations=len(c.ops),
         distinct_nontrivial=K.distinct_cases(c),
